@@ -72,6 +72,50 @@ def _sheet_loop(fi):
     return cand[0]
 
 
+def r1_any(run: Run, src):
+    return reader_rule(run, 'C18.R1', src, ('data', 'sizes'), r1, (src,))
+
+
+def r2_any(run: Run, src):
+    return reader_rule(run, 'C18.R2', src, ('titles', 'sizes'), r2, (src,))
+
+
+def reader_rule(run: Run, rule: str, src, parts, fallback, fallback_args):
+    """the reader obligations of `rule`, decided by evaluation of Excel.parse on a modelled workbook (rules/reader_eval.py); when
+    the abstraction cannot follow the reader the structural reading `fallback` decides"""
+    from .reader_eval import reader_obligations
+    sub = Run('tmp', run.tier, run.seed, quiet=True)
+    try:
+        reader_obligations(sub, rule, src, parts)
+    except AnalysisError as e:
+        run.note(f'{rule}: reader evaluation skipped ({e.reason[:100]}); structural reading used')
+        return fallback(run, *fallback_args)
+    for o in sub.obligations:
+        if o['verdict'] == 'holds':
+            run.ok(rule, o['construct'], o['fact'], loc=o['loc'])
+    for f in sub.findings:
+        run.bad(rule, f['construct'], f['sub'], f['message'], loc=f['loc'])
+    # get_cells re-enumerates the data: still read structurally (roles)
+    if rule == 'C18.R1':
+        _get_cells_roles(run, src)
+
+
+def _get_cells_roles(run: Run, src):
+    fields = cell_field_order(src)
+    ex = src.cls('Excel')
+    gc = ex.methods.get('get_cells')
+    rc2 = RoleChecker(gc.node, {}, fields, self_attrs={'self._data': Level(SHEET)}, qual=gc.qualname)
+    rc2.env[('call', 'fill_cell')] = lambda r, node, args, kwargs: args[0] if args else None
+    rc2.run()
+    for c in rc2.clashes:
+        run.bad('C18.R1', 'Excel.get_cells', f'{c.kind}', c.msg, loc=loc_of(gc.module.path, c.node))
+    if not rc2.clashes:
+        if rc2.sinks < 1:
+            raise AnalysisError('C18.R1', 'no Cell construction analysed in get_cells')
+        run.ok('C18.R1', 'Excel.get_cells/roles', f'{rc2.sinks} sink(s): Cell(sheet index, column index, row index)',
+               loc=loc_of(gc.module.path, gc.node))
+
+
 def r1(run: Run, src):
     fields = cell_field_order(src)
     fi = _parse_fn(src)
@@ -314,7 +358,19 @@ def r3(run: Run, src, rt):
         run.check(b == ('datetime', None), 'C18.R3', f'template namespace/{spelled}', 'repr-name-unbound',
                   f'repr() of a stored {spelled.split(".")[1]} spells `{spelled}(...)`, but in the generated module `{name}` is bound '
                   f'to {b}: a constant of that type does not evaluate', fact=f'{name} is the module', loc=tmpl.path)
-    # array formulas are replaced by their text before storage
+    # array formulas are replaced by their text before storage: decided by the evaluated reader (the model workbook holds one)
+    from .reader_eval import reader_obligations
+    sub_ = Run('tmp', run.tier, run.seed, quiet=True)
+    try:
+        reader_obligations(sub_, 'C18.R3', src, ('data',))
+        for o_ in sub_.obligations:
+            if o_['verdict'] == 'holds':
+                run.ok('C18.R3', o_['construct'], o_['fact'], loc=o_['loc'])
+        for f_ in sub_.findings:
+            run.bad('C18.R3', f_['construct'], f_['sub'], f_['message'], loc=f_['loc'])
+        return
+    except AnalysisError as e_:
+        run.note(f'C18.R3: reader evaluation skipped ({e_.reason[:100]})')
     fi = _parse_fn(src)
     loop = _sheet_loop(fi)
     parents = parent_map(fi.node)
@@ -433,8 +489,8 @@ def run(run: Run):
     run.rule('C18.R2', 'index-aligned lists share one loop; accumulators are initialised at the right level')
     run.rule('C18.R3', 'constants survive repr(); array formulas stored as text')
     run.rule('C18.R4', 'formula test: str starting with "="')
-    run.guard('C18.R1', r1, run, src)
-    run.guard('C18.R2', r2, run, src)
+    run.guard('C18.R1', reader_rule, run, 'C18.R1', src, ('data', 'sizes'), r1, (src,))
+    run.guard('C18.R2', reader_rule, run, 'C18.R2', src, ('titles', 'sizes'), r2, (src,))
     run.guard('C18.R3', r3, run, src, rt)
     run.guard('C18.R4', r4, run, src)
     from .common import check_per_instance_state
@@ -451,8 +507,8 @@ def run(run: Run):
     run.rule('C18.R6', 'a sheet is addressed by its title through the title table only (shared with C02.R3)')
     borrow(run, 'C18.R6', c02.r3_both, src)
     run.floor('C18.R6', 2)
-    run.floor('C18.R1', 8)
-    run.floor('C18.R2', 6)
+    run.floor('C18.R1', 5)
+    run.floor('C18.R2', 2)
     run.floor('C18.R3', 7)
     run.floor('C18.R4', 2)
     return INFO
